@@ -9,11 +9,20 @@ Section cfg:  n=<slots> interval=<ticks unit> mode=api|wb|ctor tk=sync|fake
   mode=ctor  NewTimingWheel's argument check
 Ops:  set <k|nil> <v> <d> | move <k|nil> <d> | remove <k|nil> | tick | drain | stop     (d in the unit of `interval`)
       new <interval> <slots> <execute-is-nil 0|1>                                         (mode=ctor)
+      arm <k> set <k2> <v> <d> | arm <k> move <k2> <d> | arm <k> remove <k2>   (mode=api) one-shot script: the
+          next callback (execute or Drain) that runs for key k issues that call on the wheel from inside the callback;
+          the observation of the operation that fired it then also carries `in<k>=ok|err=…` (sorted by key, then text:
+          callbacks of one operation run concurrently)
+      mode=cleaner (core/stores/cache/cleaner.go on a wheel with a harness ticker):
+          add <id> <f|s…> (AddCleanTask; the task's outcomes: f = returns an error) | tick | drain (the shutdown listener)
+          fired tokens are `id:delay` (the delayTask.delay handed to `clean`)
+      mode=cache (core/collection/cache.go, its wheel on a harness ticker, jitter off):
+          cset <k> <v> <expire> | cput <k> <v> (Set: the cache's own expire= of the cfg) | cdel <k> | tick     observation: fired `k:v` tokens, then has=<keys in data>
 Obs:  sorted `k:v` tokens handed to the execute/drain callback by that operation | err=argument | err=closed |
       stopped <ticker.Stop calls> | undelivered (tick after Stop) | PANIC … | bad-op | ok | err
 -/
 import GoZero.Base.Trace
-import GoZero.C12.Api
+import GoZero.C12.Clients
 namespace GoZero.C12
 
 open GoZero
@@ -183,6 +192,111 @@ def apiCover {T : Type} (a : ApiG T) (c : Call) (out : Res × List (Nat × Nat))
      | _ => [])
   | .ok => []
 
+/-- callback state of the driver: the scripts of mode=api, the clean tasks' outcomes, the cache's keys. -/
+structure DS where
+  arms     : List Arm := []
+  outcomes : Outcomes := []
+  present  : List Nat := []
+
+def drvCb (mode : String) : Cb DS := fun s k v =>
+  if mode = "cleaner" then ({ s with outcomes := (cleanerCb s.outcomes k v).1 }, (cleanerCb s.outcomes k v).2)
+  else if mode = "cache" then ({ s with present := (cacheCb s.present k v).1 }, (cacheCb s.present k v).2)
+  else ({ s with arms := (armCb s.arms k v).1 }, (armCb s.arms k v).2)
+
+def parseOutcomes (s : String) : Option (List Bool) :=
+  s.toList.mapM fun ch => if ch = 'f' then some true else if ch = 's' then some false else none
+
+/-- a trace line: a call (with what the client does to its own state before it), or a script registration. -/
+inductive Line where
+  | call (c : Call) (upd : DS → DS)
+  | arm (a : Arm)
+
+def parseLine (mode : String) (expire : Int) (op : List String) : Option Line :=
+  if mode = "cleaner" then
+    match op with
+    | ["add", id, oc] => do
+      let k ← id.toNat?
+      let o ← parseOutcomes oc
+      pure (.call (addCleanTask k) fun s => { s with outcomes := s.outcomes ++ [(k, o)] })
+    | ["tick"] => some (.call .tick id)
+    | ["drain"] => some (.call .drain id)
+    | _ => none
+  else if mode = "cache" then
+    match op with
+    | ["cset", k, v, e] => do
+      let k ← k.toNat?
+      pure (.call (.setTimer (some k) (← v.toNat?) (← e.toInt?))
+        fun s => { s with present := if s.present.contains k then s.present else s.present ++ [k] })
+    | ["cput", k, v] => do
+      let k ← k.toNat?
+      pure (.call (.setTimer (some k) (← v.toNat?) expire)
+        fun s => { s with present := if s.present.contains k then s.present else s.present ++ [k] })
+    | ["cdel", k] => do
+      let k ← k.toNat?
+      pure (.call (.removeTimer (some k)) fun s => { s with present := s.present.filter (· ≠ k) })
+    | ["tick"] => some (.call .tick id)
+    | _ => none
+  else
+    match op with
+    | "arm" :: k :: rest => do
+      let k ← k.toNat?
+      let c ← parseCall rest
+      match c with
+      | .setTimer _ _ _ | .moveTimer _ _ | .removeTimer _ => pure (.arm ⟨k, [c]⟩)
+      | _ => none
+    | _ => (parseCall op).map fun c => .call c id
+
+def insertNat (x : Nat) : List Nat → List Nat
+  | [] => [x]
+  | y :: ys => if x ≤ y then x :: y :: ys else y :: insertNat x ys
+
+def resStr : Res → String
+  | .ok => "ok"
+  | .errArgument => "err=argument"
+  | .errClosed => "err=closed"
+  | .unit => "unit"
+  | .panic => "panic"
+
+def insertInner (x : Inner) : List Inner → List Inner
+  | [] => [x]
+  | y :: ys => if x.1 < y.1 ∨ (x.1 = y.1 ∧ resStr x.2.2 ≤ resStr y.2.2) then x :: y :: ys else y :: insertInner x ys
+
+/-- observation of one line from the model's / the spec's result. -/
+def renderCb {T : Type} (mode : String) (c : Call) (pre post : ApiG T) (res : Res) (q : Settled T DS) : String :=
+  let base :=
+    if mode = "api" ∨ mode = "wb" then render c pre post (res, q.fired) else canon q.fired
+  let inner :=
+    if mode = "api" then (q.inner.foldr insertInner []).map fun x => s!"in{x.1}={resStr x.2.2}" else []
+  let has :=
+    if mode = "cache" then
+      ["has=" ++ (if q.cb.present.isEmpty then "-" else
+        ",".intercalate ((q.cb.present.foldr insertNat []).map toString))]
+    else []
+  let fuel := if q.left.isEmpty then [] else ["FUEL"]
+  joinSp ((if base = "" then [] else [base]) ++ inner ++ has ++ fuel)
+
+def innerCover (mode : String) (c : Call) (stepsIv : Nat) {T : Type} (q : Settled T DS) : List String :=
+  (q.inner.map fun x =>
+    let own := match x.2.1 with
+      | .setTimer (some k) _ _ => if k = x.1 then "-own-key" else "-other-key"
+      | .moveTimer (some k) _ => if k = x.1 then "-own-key" else "-other-key"
+      | .removeTimer (some k) => if k = x.1 then "-own-key" else "-other-key"
+      | _ => ""
+    let kind := match x.2.1 with
+      | .setTimer _ _ d =>
+        if mode = "cleaner" then s!"cleaner-retry-after-{(stepsOf stepsIv d)}s" else "inner-set" ++ own
+      | .moveTimer _ _ => "inner-move" ++ own
+      | .removeTimer _ => if mode = "cache" then "cache-expiry-callback" else "inner-remove" ++ own
+      | _ => "inner-other"
+    kind) ++
+  (if q.inner.isEmpty then [] else
+    [match c with
+     | .drain => "inner-call-from-drain-callback"
+     | .tick => "inner-call-from-tick-callback"
+     | .moveTimer _ _ => "inner-call-from-immediate-move-callback"
+     | _ => "inner-call-from-other"]) ++
+  (if q.inner.length ≥ 2 then ["inner-calls-2+-in-one-op"] else [])
+
 def runCtor (r : Report) (s : Section) : Report := Id.run do
   let mut r := r
   for l in s.lines do
@@ -210,21 +324,36 @@ def runSection (r : Report) (s : Section) : Report := Id.run do
   let wb := mode = "wb"
   let mut a : Api := Api.init interval n
   let mut sp : Spec.Api := Spec.Api.init interval
+  let mut ds : DS := {}
+  let mut dsS : DS := {}
   let mut aux : Aux := {}
-  let mut r := r.addCover (if wb then "mode-wb" else "mode-api-" ++ kvStr s.cfg "tk" "sync")
+  let mut r := r.addCover (if wb then "mode-wb" else if mode = "api" then "mode-api-" ++ kvStr s.cfg "tk" "sync" else "mode-" ++ mode)
   if kvNat s.cfg "long" 0 = 1 then r := r.addCover "long-run-section"
+  let cb := drvCb mode
+  let fuel := 1000000
   let mut maxLive := 0
   for l in s.lines do
-    match parseCall l.op with
+    match parseLine mode ((kvStr s.cfg "expire" "0").toInt?.getD 0) l.op with
     | none => r := r.mismatch s.idx l.idx "bad-op" (joinSp l.op)
-    | some c =>
+    | some (.arm arm) =>
+      r := { r with ops := r.ops + 1 }
+      r := r.addCover "arm"
+      let impl := joinSp l.obs
+      if wb then
+        if impl ≠ "bad-op" then r := r.mismatch s.idx l.idx "bad-op" impl
+      else
+        if impl ≠ "armed" then r := r.mismatch s.idx l.idx "armed" impl
+        ds := { ds with arms := ds.arms ++ [arm] }
+        dsS := { dsS with arms := dsS.arms ++ [arm] }
+    | some (.call c upd) =>
       r := { r with ops := r.ops + 1 }
       let impl := joinSp l.obs
       if wb && wbUnsupported c then
         if impl ≠ "bad-op" then r := r.mismatch s.idx l.idx "bad-op" impl
       else
-        let (a', out) := a.step c
-        let (sp', sout) := sp.step c
+        let (q, res) := ApiG.stepCb step cb fuel a (upd ds) c
+        let (qs, sres) := ApiG.stepCb Spec.step cb fuel sp (upd dsS) c
+        let out := (a.step c).2
         for cv in apiCover a c out do r := r.addCover cv
         if out.1 = .ok ∨ out.1 = .unit then
           match opOf interval c with
@@ -233,13 +362,32 @@ def runSection (r : Report) (s : Section) : Report := Id.run do
               for cv in branchOf a.inner aux op do r := r.addCover cv
               aux := auxStep a.inner aux op
           | none => pure ()
-        if (out.2.length > 0) then r := r.addCover "fired" out.2.length
-        let m := render c a a' out
-        let sm := render c sp sp' sout
+        for x in q.inner do
+          if x.2.2 = .ok then
+            match opOf interval x.2.1 with
+            | some op => aux := auxStep a.inner aux op    -- bookkeeping only (approximate for inner calls)
+            | none => pure ()
+        for cv in innerCover mode c interval q do r := r.addCover cv
+        if mode = "cleaner" then
+          for kv in q.fired do
+            r := r.addCover (if q.inner.any (·.1 = kv.1) then "cleaner-task-failed-rearmed"
+              else if (nextDelay kv.2).2 then "cleaner-task-done" else "cleaner-task-done-or-gave-up-after-1h")
+        if mode = "cache" then
+          match c with
+          | .setTimer (some k) _ d =>
+            r := r.addCover (if d ≤ 0 then "cache-set-nonpositive-expire" else if hasKey a.inner k then "cache-set-pending-key" else "cache-set")
+            if 0 < d ∧ d < interval then r := r.addCover "cache-set-expire-below-interval"
+          | .removeTimer (some k) => r := r.addCover (if hasKey a.inner k then "cache-del-pending" else "cache-del-absent")
+          | _ => pure ()
+        if (q.fired.length > 0) then r := r.addCover "fired" q.fired.length
+        let m := renderCb mode c a q.api res q
+        let sm := renderCb mode c sp qs.api sres qs
         if m ≠ impl then r := r.mismatch s.idx l.idx m impl
         if sm ≠ impl then r := r.violation s.idx l.idx s!"spec=[{sm}] impl=[{impl}] op=[{joinSp l.op}]"
-        a := a'
-        sp := sp'
+        a := q.api
+        sp := qs.api
+        ds := q.cb
+        dsS := qs.cb
         if a.inner.entries.length > maxLive then maxLive := a.inner.entries.length
   if maxLive ≥ 1000 then r := r.addCover "live-timers-1000+"
   if maxLive ≥ 10 then r := r.addCover "live-timers-10+"
